@@ -54,6 +54,42 @@ func toSs(ss []string) []S {
 	return out
 }
 
+// Txt is a text that may contain bytes that are not valid UTF-8: it travels in JSON as a string when it is
+// valid UTF-8 and as an array of code points (S) otherwise; both forms are read.
+type Txt string
+
+func (t Txt) MarshalJSON() ([]byte, error) {
+	if utf8.ValidString(string(t)) {
+		return json.Marshal(string(t))
+	}
+	return json.Marshal(toS(string(t)))
+}
+
+func (t *Txt) UnmarshalJSON(b []byte) error {
+	if len(b) > 0 && b[0] == '[' {
+		var cps []int
+		if err := json.Unmarshal(b, &cps); err != nil {
+			return err
+		}
+		*t = Txt(S(cps).String())
+		return nil
+	}
+	var s string
+	if err := json.Unmarshal(b, &s); err != nil {
+		return err
+	}
+	*t = Txt(s)
+	return nil
+}
+
+func txts(ss ...string) []Txt {
+	out := make([]Txt, len(ss))
+	for i, s := range ss {
+		out[i] = Txt(s)
+	}
+	return out
+}
+
 // ---------------------------------------------------------------- tree
 
 type OptNode struct {
@@ -76,7 +112,7 @@ type OptNode struct {
 	ValueName string   `json:"valueName,omitempty"`
 	Desc      string   `json:"desc,omitempty"`
 	Mask      string   `json:"mask,omitempty"`
-	Init      []string `json:"init,omitempty"`   // preset field contents (texts; maps as "k:v")
+	Init      []Txt    `json:"init,omitempty"`   // preset field contents (texts; maps as "k:v")
 	FailOn    *string  `json:"failOn,omitempty"` // callbacks: return an error when called with this text
 	Validator bool     `json:"validator,omitempty"`
 	ErrFunc   bool     `json:"errFunc,omitempty"` // callbacks: func type returns error
@@ -270,25 +306,25 @@ func initAtoms(o *OptNode) []any {
 	switch o.Kind {
 	case "flag":
 		if len(o.Init) > 0 {
-			out = append(out, toS(o.Init[0]))
+			out = append(out, toS(string(o.Init[0])))
 		} else {
 			out = append(out, toS("false"))
 		}
 	case "scalar":
 		if len(o.Init) > 0 {
-			out = append(out, toS(o.Init[0]))
+			out = append(out, toS(string(o.Init[0])))
 		} else {
 			out = append(out, toS(zeroText(o.VType)))
 		}
 	case "map":
 		for _, kv := range o.Init {
-			k, v := splitKV(kv)
+			k, v := splitKV(string(kv))
 			out = append(out, []S{toS(k), toS(v)})
 		}
 	case "func0", "func1":
 	default:
 		for _, v := range o.Init {
-			out = append(out, toS(v))
+			out = append(out, toS(string(v)))
 		}
 	}
 	return out
@@ -298,7 +334,7 @@ func zeroText(vt string) string {
 	switch vt {
 	case "string", "um":
 		return ""
-	case "bool":
+	case "bool", "tb":
 		return "false"
 	case "duration":
 		return "0s"
